@@ -364,6 +364,27 @@ def d6_month_numbers(ctx):
                 else:
                     ctx.finding('D6', 'month-table/number', 'a month table entry is numbered %s; expected its index + 1' % r[:60], site=s['loc'])
     if not ok:
+        # iterator form: (1..=12).map(|month| MonthInfo { .., month }).collect(): the k-th element (index k - 1) carries k
+        for cpath, agg in model._closure_sites(ctx.facts, lj).items():
+            cb = ctx.facts.bodies.get(cpath)
+            if cb is None:
+                continue
+            for i in cb.normal_blocks:
+                for s in cb.blocks[i]['stmts']:
+                    if s['k'] == 'assign' and s['rv'] == 'aggr' and s.get('adt', '').endswith('constants::MonthInfo::MonthInfo'):
+                        e = dict(zip(s['fields'], s['ops']))
+                        me = strip(cb.expr(e['month']))
+                        src = None
+                        for bid, t in lj.calls(r'Iterator>?::map$'):
+                            if len(t['args']) == 2 and cpath in render(lj.expr(t['args'][1])):
+                                src = render(lj.expr(t['args'][0]))
+                        if me[0] == 'arg' and me[1] == 2 and src and re.fullmatch(r'RangeInclusive::new\(1, 12\)|core::ops::Range::Range\{1, 13\}|core::ops::range::Range::Range\{1, 13\}', src):
+                            ok += 1
+                            ctx.ok('D6', 'month table entry k of (1..=12).map(..) carries k (its index + 1)', 'shape', site=s['loc'])
+                        else:
+                            ctx.finding('D6', 'month-table/number', 'a month table entry is numbered %s over %s; expected its index + 1' % (render(me)[:60], src), site=s['loc'])
+                            ok += 1
+    if not ok:
         raise AnchorLost('load_from_json: MonthInfo construction not found')
     n = 0
     for bid, t in lj.calls(r'(Vec|slice)(::<.*>)?::get_mut$|slice::<impl \[T\]>::get_mut$'):
